@@ -239,6 +239,19 @@ fn lifecycle_cmd(a: &Args) {
             let all: Vec<u32> = r.rec.ctx.resmap.keys().copied().collect();
             let pre: Vec<u32> = all.into_iter().filter(|_| rng.gen_bool(0.4)).collect();
             let repeat = *[1usize, 1, 2, 3].choose(&mut rng).unwrap();
+            // a refused conversion to the sendable form must hand back the complete dispatcher
+            let has_tl = r.rec.sys.iter().any(|x| (x.kind == "tl" || x.kind == "nest") && x.builder == r.top);
+            if has_tl && rng.gen_bool(0.5) {
+                let d = r.dispatcher.take().unwrap();
+                match d.try_into_sendable() {
+                    Ok(_) => {}
+                    Err(d) => r.dispatcher = Some(d),
+                }
+            }
+            if r.dispatcher.is_none() {
+                write_events(&mut w, &r.rec.events);
+                continue;
+            }
             shredh::execx::lifecycle(&mut r, &pre, repeat, rng.gen_bool(0.3));
         }
         maxdepth = maxdepth.max(prog.depth());
@@ -270,13 +283,9 @@ fn async_cmd(a: &Args) {
     base.p_barrier = a.num("pbarrier", 0.08);
     base.max_depth = 1;
     // a panic in a spawned job must not abort the process: it is data
-    let p = Arc::new(
-        rayon::ThreadPoolBuilder::new()
-            .num_threads(a.num("pool", 12))
-            .panic_handler(|_| {})
-            .build()
-            .unwrap(),
-    );
+    let mk = |n: usize| Arc::new(rayon::ThreadPoolBuilder::new().num_threads(n).panic_handler(|_| {}).build().unwrap());
+    let big = mk(a.num("pool", 12));
+    let smalls = [mk(1), mk(2), mk(3)];
     let (mut nsys, mut nev, mut ncall) = (0usize, 0usize, 0usize);
     let mut samples = Vec::new();
     for k in 0..count {
@@ -285,6 +294,8 @@ fn async_cmd(a: &Args) {
         let prog = gen_prog(&mut rng, &cfg, 0, "");
         let mut res = Vec::new();
         prog.resources(&mut res);
+        // mostly a pool wide enough for maximal overlap, now and then 1..3 workers
+        let p = if rng.gen_bool(0.3) { smalls.choose(&mut rng).unwrap().clone() } else { big.clone() };
         let mut s = record_async(&prog, Variant::identity(&res), k + 1, p.clone());
         let mut ops: Vec<String> = Vec::new();
         let n = rng.gen_range(3..=ncalls);
@@ -326,7 +337,7 @@ fn async_cmd(a: &Args) {
                 panics.push(*g);
             }
         }
-        let st = run_session(&mut s, &ops, rng.gen(), a.num("quiet-us", 300), a.num("hold-ms", 3), &panics);
+        let st = run_session(&mut s, &ops, rng.gen(), a.num("quiet-us", 300), a.num("hold-ms", 3), &panics, a.flag("setuplog"));
         let _ = st;
         ncall += ops.len();
         nsys += prog.count_systems();
